@@ -43,6 +43,9 @@ Notation "' ( x , y ) <- e ;; k" := (bind e (fun p => let '(x, y) := p in k))
 
 Record ddpstring : Type := mkstr { bytes : list Z; cap : Z }.
 Definition empty_string : ddpstring := mkstr [] 0.          (* DDP_EMPTY_STRING = {NULL, 0} *)
+(* the other empty Text: C code of the stdlib that builds a ddpstring by hand allocates strlen + 1 bytes also
+   for the empty C string (env.c, string_builder.c, filesystem.c, strings.c, ...) *)
+Definition owned_empty : ddpstring := mkstr [0] 1.
 Definition is_null (s : ddpstring) : bool := match bytes s with [] => true | _ => false end.
 
 Definition len (l : list Z) : Z := Z.of_nat (length l).
@@ -348,16 +351,18 @@ Section Codec.
     r2 <- blit r1 num_bytes [0] ;;
     Ok (mkstr r2 (num_bytes + 1)).
 
-  (* same = the two pointers are equal; memcmp reads str1->cap bytes of BOTH blocks *)
+  (* same = the two pointers are equal; the strlen bytes of both texts are compared (nothing is read when
+     both are empty, whichever of the two empty representations they have) *)
   Definition string_equal (same : bool) (s1 s2 : ddpstring) : res bool :=
     if same then Ok true
     else
       l1 <- ddp_strlen s1 ;;
       l2 <- ddp_strlen s2 ;;
       if negb (l1 =? l2) then Ok false
+      else if l1 =? 0 then Ok true
       else
-        a <- sub (bytes s1) 0 (cap s1) ;;
-        b <- sub (bytes s2) 0 (cap s1) ;;
+        a <- sub (bytes s1) 0 l1 ;;
+        b <- sub (bytes s2) 0 l1 ;;
         Ok (list_eqb a b).
 
   (* ---- casts emitted by the compiler (compiler.go, VisitCastExpr) --------------------------- *)
@@ -408,6 +413,7 @@ Section Codec.
   | OSlice (r a : nat) (i j : Z)            (* r := a im Bereich von i bis j *)
   | OCharToString (r : nat) (c : Z)         (* r := c als Text *)
   | OReplace (r : nat) (c : Z) (i : Z)      (* r an der Stelle i ist c *)
+  | OEmptyOwned (r : nat)                   (* r := the empty Text {"\0", 1} returned by a C producer of the stdlib *)
   | OIndex (a : nat) (i : Z)                (* a an der Stelle i *)
   | OLength (a : nat)                       (* die Länge von a *)
   | OEqual (a b : nat)                      (* a gleich b *)
@@ -447,6 +453,7 @@ Section Codec.
     | OSlice r a i j => v <- string_slice (reg st a) i j ;; Ok (upd st r v, VNone)
     | OCharToString r c => v <- char_to_string c ;; Ok (upd st r v, VNone)
     | OReplace r c i => v <- replace_char_in_string (reg st r) c i ;; Ok (upd st r v, VNone)
+    | OEmptyOwned r => Ok (upd st r owned_empty, VNone)
     | OIndex a i => c <- string_index (reg st a) i ;; Ok (st, VInt c)
     | OLength a => n <- string_length (reg st a) ;; Ok (st, VInt n)
     | OEqual a b => e <- string_equal (Nat.eqb a b) (reg st a) (reg st b) ;; Ok (st, VBool e)
